@@ -380,15 +380,15 @@ Proof.
       injection H as <-. prj.
       assert (vw (wword b) = 0) by lia.
       split; [|split; [reflexivity|constructor]].
-      apply Z0_set_word, Z0_set_line; [apply Z0_set_prew, HZ| |]; prj;
+      apply Z0_set_word, Z0_set_line; [exact HZ| |]; prj;
         rewrite ?tlen_fold_push, ?raw_fold_push; lia.
     + bind_inv H b1 H1.
       assert (A : Z0 b1 /\ wword b1 = wword b /\ wordlen b1 = wordlen b).
       { destruct (do_wrap m); cbn [negb] in H1.
         - injection H1 as <-. prj. split; [|auto].
-          apply Z0_set_space; [apply Z0_set_prew, HZ|lia].
+          apply Z0_set_space; [exact HZ|lia].
         - destruct (N.leb_spec 0 (wslen b)); [|lia]. injection H1 as <-. prj. split; [|auto].
-          apply Z0_set_space; [apply Z0_set_prew, HZ|]. intros X. apply Hst. lia. }
+          apply Z0_set_space; [exact HZ|]. intros X. apply Hst. lia. }
       destruct A as (Z1 & W1 & L1).
       bind_inv H b2 H2. destruct (flush_line_z _ _ Z1 H2) as [Z2 (tx2 & ln2 & ->)].
       bind_inv H b4 H4.
@@ -410,10 +410,10 @@ Proof.
       revert Z6. unfold Z0. prj. tauto.
 Qed.
 
-Lemma tab_loop_z t : forall f b pos one b',
-  wwidth b = 0 -> tab_loop f b t pos one = Ok b' -> b' = b.
+Lemma tab_loop_z t tw : forall f b pos one fl r,
+  wwidth b = 0 -> tab_loop f b t tw pos one fl = Ok r -> r = (b, fl).
 Proof.
-  intros f b pos one b' HW H. destruct f as [|f]; cbn [tab_loop] in H.
+  intros f b pos one fl r HW H. destruct f as [|f]; cbn [tab_loop] in H.
   - destruct (negb (pos mod 8 =? 0) || negb one); [discriminate|]. injection H as <-. reflexivity.
   - destruct (negb (pos mod 8 =? 0) || negb one).
     + rewrite HW in H. change (0 =? 0) with true in H. cbn iota in H. injection H as <-. reflexivity.
@@ -436,7 +436,8 @@ Proof.
       * bind_inv H b2 H2. destruct (ffl_z _ _ HZ H2) as [Z2 (tx & ln & ->)].
         injection H as <- _. revert Z2. unfold ZI, Z0. prj. intuition (try lia; try discriminate).
       * destruct (cp c =? 9).
-        -- bind_inv H b2 H2. apply tab_loop_z in H2; [|exact HW]. subst b2.
+        -- bind_inv H r2 H2. apply tab_loop_z in H2; [|exact HW]. subst r2.
+           cbn [fst snd] in H. rewrite Bool.andb_false_r in H.
            injection H as <- _. exact HI1.
         -- destruct (cw c) as [cwidth|].
            ++ destruct (wwidth b1 <? tlen_ (wline b1) + wslen b1 + cwidth).
